@@ -129,6 +129,57 @@ Theorem C17_epnp_alpha_reproduces_points :
   = rigid_apply A t (ctrl_comb a c).
 Proof. exact alpha_reproduces_points. Qed.
 
+(* --- the conversion: mat2SO3 never divides by zero (the selected radicand is positive on every
+   matrix) and maps a rotation matrix to the unit quaternion of that rotation, in all four regions *)
+Theorem C17_mat2SO3_of_rotation : forall m : mat3R, rot m ->
+  exists q, mat2SO3 false m = Some q /\ unitq q /\ SO3_matrix q = m.
+Proof. exact mat2SO3_rot. Qed.
+(* --- svdtf AS CALLED (centroids, SVD oracle, reflection step, mat2SE3): for every oracle whose
+   answer on this input meets the contract it returns a valid SE3 element (unit quaternion, proper
+   rotation) acting as p |-> R p + t with (R, t) = svdtf_mat: "returns a proper rigid transform" *)
+Theorem C17_svdtf_returns_proper_rigid : forall (svd : mat3R -> mat3R * vec3R * mat3R) (src tgt : cloudR),
+  sizes_ok src tgt = true -> svd_contract svd (svdtf_M src tgt) ->
+  exists T, svdtf svd src tgt = Some T /\ unitq (snd T) /\
+    let '(U, _, Vh) := svd (svdtf_M src tgt) in
+    rot (SO3_matrix (snd T)) /\
+    forall p, SE3_act T p = rigid_apply (fst (svdtf_mat src tgt U Vh)) (snd (svdtf_mat src tgt U Vh)) p.
+Proof. exact svdtf_returns. Qed.
+(* --- and the refutation for the function as called *)
+Theorem C17_svdtf_call_refuted :
+  exists (svd : mat3R -> mat3R * vec3R * mat3R) (src tgt : cloudR) T,
+    sizes_ok src tgt = true /\ svd_contract svd (svdtf_M src tgt) /\
+    svdtf svd src tgt = Some T /\ resid (SE3_act SE3_id) src tgt = 0 /\ resid (SE3_act T) src tgt = 32.
+Proof. exact svdtf_call_refuted. Qed.
+(* --- svdstf AS CALLED (mat2Sim3 with check=True: cube root of det, "not full rank" test, the ten
+   allclose tests): returns a valid Sim3 element acting as p |-> s R p + t whenever the Umeyama
+   scale exceeds mat2Sim3's 1e-5 threshold *)
+Theorem C17_svdstf_returns_similarity : forall (svd : mat3R -> mat3R * vec3R * mat3R) (ws : bool) (src tgt : cloudR),
+  sizes_ok src tgt = true -> svd_contract svd (svdstf_H src tgt) ->
+  let '(U, D, V) := svd (svdstf_H src tgt) in
+  1 / 100000 < fst (fst (svdstf_mat ws src tgt U D V)) ->
+  exists X, svdstf svd ws src tgt = Some X /\ unitq (fst (snd X)) /\
+    snd (snd X) = fst (fst (svdstf_mat ws src tgt U D V)) /\
+    forall p, Sim3_act X p = sim_apply (fst (fst (svdstf_mat ws src tgt U D V)))
+                                       (snd (fst (svdstf_mat ws src tgt U D V)))
+                                       (snd (svdstf_mat ws src tgt U D V)) p.
+Proof. exact svdstf_returns. Qed.
+
+(* --- ICP: one pass of the loop body (knn oracle with its contract, svdtf as called) does not
+   increase the sum -- hence the mean -- of squared closest-point distances; partial: the SVD
+   answer of this pass must not fall into svdtf's reflection branch (on planar clouds it does, and
+   the clause fails: known finding) *)
+Theorem C17_icp_pass_monotone_partial :
+  forall (svd : mat3R -> mat3R * vec3R * mat3R) (knn : cloudR -> cloudR -> list (R * nat))
+         (temporal target temporal' : cloudR) (err : R),
+  temporal <> [] ->
+  knn_ok temporal target (map snd (knn temporal target)) ->
+  knn_ok temporal' target (map snd (knn temporal' target)) ->
+  (let M := svdtf_M temporal (gather3 target (map snd (knn temporal target))) in
+   svd_contract svd M /\ let '(U, _, Vh) := svd M in mdet3 (mmul3 U Vh) = 1) ->
+  icp_body svd knn temporal target = Some (err, temporal') ->
+  cpd temporal' target (map snd (knn temporal' target)) <= cpd temporal target (map snd (knn temporal target)).
+Proof. exact icp_pass_monotone_partial. Qed.
+
 (* the hypotheses are satisfiable: the witness cloud with its SVD meets the contract *)
 Example C17_contract_satisfiable :
   sizes_ok wit_src wit_src = true /\ svd_ok (svdtf_M wit_src wit_src) wit_U wit_S wit_Vh.
@@ -143,3 +194,6 @@ Print Assumptions C17_svdstf_proper. Print Assumptions C17_svdstf_optimal.
 Print Assumptions C17_svdstf_noscale_optimal. Print Assumptions C17_svdstf_exact_recovery.
 Print Assumptions C17_epnp_true_control_points_in_nullspace.
 Print Assumptions C17_epnp_alpha_reproduces_points.
+Print Assumptions C17_mat2SO3_of_rotation. Print Assumptions C17_svdtf_returns_proper_rigid.
+Print Assumptions C17_svdtf_call_refuted. Print Assumptions C17_svdstf_returns_similarity.
+Print Assumptions C17_icp_pass_monotone_partial.
